@@ -946,6 +946,28 @@ class FactoryOracle:
                     self._suspect(("dead", id(rec)), now, "C10", "leaked_reservation",
                                   f"{L.type}:{proc.mon_name}:process-ended-leaving-a-live-reservation",
                                   {"node": L.id, "edge": rec.sh.label, "state": rec.state})
+        # ---------------- C11: reported occupancy of every edge = in-transit + ready items
+        for eid, edge in self.m.edges.items():
+            occ = None
+            for name in ("occupancy", "get_occupancy", "belt_occupancy"):
+                f = getattr(edge, name, None)
+                if f is None:
+                    continue
+                try:
+                    occ = f()
+                    break
+                except NotImplementedError:
+                    continue
+            if occ is None:
+                continue
+            store = getattr(edge, "inbuiltstore", None)
+            if store is None:
+                store = edge.belt
+            sh = mon.shadow(store)
+            mon.counters["c11_occupancy_checks"] += 1
+            if occ != len(sh.held) and not sh.dead:
+                mon.violation("C11", "occupancy_wrong", f"{sh.kind}:reported-occupancy!=in-transit+ready",
+                              {"edge": eid, "reported": occ, "held": len(sh.held)})
         for k in [k for k in self.suspects if k not in self._live]:
             del self.suspects[k]
 
